@@ -88,11 +88,16 @@ class FP(pathlib.PosixPath):
 
 
 class FaultyBIO(io.BufferedIOBase):
-    def __init__(self, data: bytes):
+    def __init__(self, data: bytes, consume: int = 0):
         self.b = io.BytesIO(data)
+        self.consume = consume  # bytes the failing read takes from the source before it raises (a buffered reader over a flaky device)
 
     def read(self, n=-1):
-        _answer("bio.read", "<stream>")
+        try:
+            _answer("bio.read", "<stream>")
+        except OSError:
+            self.b.read(self.consume)
+            raise
         return self.b.read(n)
 
     def seek(self, *a):
@@ -123,8 +128,8 @@ def make_tree(root):
             f.write(data)
 
 
-GOOD = ["writestr", "writef", "write", "writeall"]
-FAULTY = ["write:missing", "write:answer", "writeall:answer", "writestr:badname", "writef:badname", "writef:answer", "write:badtype"]
+GOOD = ["writestr", "writef", "write", "writeall", "writedir"]  # writedir: write() of a directory (one entry without data)
+FAULTY = ["write:missing", "write:answer", "writeall:answer", "writestr:badname", "writef:badname", "writef:answer", "write:badtype", "writef:consuming:answer"]
 BADNAMES = ["../evil", "/abs/evil", "a/../../evil"]
 ERRNOS = [errno.EACCES, errno.EIO, errno.ENOENT]
 
@@ -141,6 +146,9 @@ def do_good(z, kind, i, root, model):
     elif kind == "write":
         z.write(FP(os.path.join(root, "g.txt")), f"w{i}/g.txt")
         model.append((f"w{i}/g.txt", TREE["g.txt"]))
+    elif kind == "writedir":
+        z.write(FP(os.path.join(root, "good", "deep")), f"d{i}")
+        model.append((f"d{i}", None))
     else:
         z.writeall(FP(os.path.join(root, "good")), f"all{i}")  # a different source than the one the faulty call names
         model.append((f"all{i}", None))
@@ -211,6 +219,8 @@ def _body(ch: explore.Chooser, wd: str):
                 z.writef(io.BytesIO(b"never"), badname)
             elif fkind == "writef:answer":
                 z.writef(FaultyBIO(b"stream-data-" * 30), "faulty/stream.bin")
+            elif fkind == "writef:consuming:answer":
+                z.writef(FaultyBIO(b"stream-data-" * 30, consume=7), "faulty/stream.bin")
         except Exception as ex:
             obs["raised"] = type(ex).__name__
         finally:
@@ -221,7 +231,7 @@ def _body(ch: explore.Chooser, wd: str):
         swallowed = not fault_happened and PLAN["fired"] is not None
         if swallowed:
             # pathlib turned the injected error into an answer ("does not exist"): the call did not fail, nothing to judge about it
-            partial_prefix = {"write:answer": "faulty", "writeall:answer": "faultyall", "writef:answer": "faulty"}.get(fkind)
+            partial_prefix = {"write:answer": "faulty", "writeall:answer": "faultyall", "writef:answer": "faulty", "writef:consuming:answer": "faulty"}.get(fkind)
         elif not fault_happened:
             # the answer index lies beyond the answers this call asks for: the call simply succeeded
             if fkind == "write:answer":
@@ -230,7 +240,7 @@ def _body(ch: explore.Chooser, wd: str):
                 model.append(("faultyall", None))
                 for rel in ("a", "b", "deep", "deep/c"):
                     model.append((f"faultyall/{rel}", TREE.get("sub/" + rel)))
-            elif fkind == "writef:answer":
+            elif fkind in ("writef:answer", "writef:consuming:answer"):
                 model.append(("faulty/stream.bin", b"stream-data-" * 30))
         opens_at_fault = list(PLAN["opens"])
         for k in kinds_after:
